@@ -365,7 +365,7 @@ impl Prop for C05 {
         let mut model_bound: Option<u64> = None;
         let (text, source, globals, label): (String, String, BTreeMap<String, crate::model::value::MVal>, String) = if idx < DIRECTED.len() {
             let (name, t, s) = DIRECTED[idx];
-            if name == "shorthand_cycle" && cfg.shard != 0 {
+            if name == "shorthand_cycle" && (cfg.shard != 0 || std::env::var("TSGMON_VARIANT").is_ok()) {
                 // one process death per run is enough to keep the known finding visible
                 return;
             }
